@@ -95,6 +95,10 @@ pub fn generate(tier: Tier, rng: &mut Rng, sink: &mut dyn FnMut(Case)) {
         crate::GEN_PANICKED.store(true, std::sync::atomic::Ordering::SeqCst);
         eprintln!("generator family gen_bigconf panicked");
     }
+    if std::panic::catch_unwind(std::panic::AssertUnwindSafe(|| gen_big256(&mut g))).is_err() {
+        crate::GEN_PANICKED.store(true, std::sync::atomic::Ordering::SeqCst);
+        eprintln!("generator family gen_big256 panicked");
+    }
     if std::panic::catch_unwind(std::panic::AssertUnwindSafe(|| gen_manytypes(&mut g, tier))).is_err() {
         crate::GEN_PANICKED.store(true, std::sync::atomic::Ordering::SeqCst);
         eprintln!("generator family gen_manytypes panicked");
@@ -660,6 +664,15 @@ fn gen_wide(g: &mut Gen) {
 fn f_op_shuffled(rng: &mut Rng, fid: u64, accs: &[Acc]) -> Op {
     match f_op(fid, accs) {
         Op::F { fid, mut rd, mut wr } => {
+            // a declaration may list a type twice (two parameters of the same type)
+            if !rd.is_empty() && rng.chance(1, 8) {
+                let t = rd[rng.below(rd.len())];
+                rd.push(t);
+            }
+            if !wr.is_empty() && rng.chance(1, 10) {
+                let t = wr[rng.below(wr.len())];
+                wr.push(t);
+            }
             rng.shuffle(&mut rd);
             rng.shuffle(&mut wr);
             Op::F { fid, rd, wr }
@@ -745,6 +758,47 @@ fn gen_bigconf(g: &mut Gen, tier: Tier) {
 // timed: path-rich layered block beside a disconnected chain (and variants), built under a
 // wall-clock budget: a path search that enumerates paths instead of nodes does not return
 // ---------------------------------------------------------------------------------------------
+
+/// big256: 256 and more functions of which only a few declare data access, placed so that the
+/// conflicting pairs sit 256 / 255 / 254 positions before the end of the rank-sorted order (and at
+/// the very beginning); duplicate type declarations.
+fn gen_big256(g: &mut Gen) {
+    let fo = |fid: u64, rd: Vec<usize>, wr: Vec<usize>| Op::F { fid, rd, wr };
+    for n in [256usize, 257, 258, 300, 513] {
+        for variant in 0..2 {
+            let mut ops: Vec<Op> = (0..n).map(|i| fo(fixed_fid(i), vec![], vec![])).collect();
+            let mut t = 0usize;
+            let mut pair = |a: usize, b: usize, ops: &mut Vec<Op>| {
+                if a < n && b < n {
+                    ops[a] = fo(fixed_fid(a), vec![], vec![t]);
+                    ops[b] = if variant == 0 {
+                        fo(fixed_fid(b), vec![], vec![t])
+                    } else {
+                        fo(fixed_fid(b), vec![t, t], vec![])
+                    };
+                    t += 1;
+                }
+            };
+            pair(0, 1, &mut ops);
+            if n >= 256 {
+                pair(n - 256, n - 255, &mut ops);
+            }
+            if n >= 258 {
+                pair(n - 254, n - 253, &mut ops);
+            }
+            if n >= 512 {
+                pair(n - 512, n - 511, &mut ops);
+            }
+            pair(n - 2, n - 1, &mut ops);
+            if variant == 1 {
+                // a few logic edges so that the rank order differs from the insertion order
+                ops.push(Op::L(n - 1, 5));
+                ops.push(Op::L(7, 3));
+            }
+            g.emit_b("big256", ops, Vec::new());
+        }
+    }
+}
 
 /// manytypes: more distinct data types in one graph than any machine word has bits (65..200), and
 /// single functions declaring more types than a small inline vector holds.
